@@ -36,8 +36,12 @@ def run(ctx):
     rnd = random.Random(ctx.seed)
     quick = ctx.tier == "quick"
     # ---- (1) the design: intended bookkeeping holds in every interleaving of small configurations
-    for cfg in (["i_1_3", "i_2_3_b2"] if quick else ["i_1_3", "i_2_3_b2", "i_2_4", "i_live"]):
+    for cfg in (["i_1_3", "i_2_3_b2", "i_2_3_f2"] if quick else ["i_1_3", "i_2_3_b2", "i_2_3_f2", "i_2_4", "i_live"]):
         common.tlc(ctx, "ZnPrefork", "MC_ZnPrefork_%s.cfg" % cfg, timeout=3000)
+    # named deviation "lostexit" (an exit notification that is dropped when the master is busy): Refill must be refuted
+    _, li = common.tlc(ctx, "ZnPrefork", "MC_ZnPrefork_lostexit.cfg", timeout=600, allow_violation=True)
+    if not li["violated"]:
+        raise common.NoVerdict("sensitivity: TLC did not refute Refill for the deviation 'lostexit'")
     # ---- (2) schedules: counterexamples of the named deviation + simulated behaviours of the intended design
     scheds = []
     for cfg, (i0, m0) in (("cex1", (1, 3)), ("cex2", (2, 3))):
@@ -64,6 +68,11 @@ def run(ctx):
     for k in range(nfree):
         i0, m0 = [(1, 3), (2, 3), (1, 2), (2, 4), (1, 1), (3, 3)][k % 6]
         cases.append(dict(id=len(cases), init=i0, max=m0, timeout=1, mode="free", seed=ctx.seed * 1000 + k, bursts=6 if quick else 14)); meta.append(("free", i0, m0))
+    # storms: every live worker killed at the same moment, the master's bookkeeping steps slowed down (several exits arrive while it is busy)
+    nstorm = 4 if quick else 24
+    for k in range(nstorm):
+        i0, m0 = [(2, 3), (2, 4), (3, 3), (1, 2)][k % 4]
+        cases.append(dict(id=len(cases), init=i0, max=m0, timeout=1, mode="free", seed=ctx.seed * 1000 + 500 + k, bursts=2, slow=[40, 0, 120, 15][k % 4], storm=2)); meta.append(("free", i0, m0))
     res = common.run_harness(ctx, znh, "pm", cases, timeout=3000, args=["-t", "90", "-j", "4"])
     if len(res) != len(cases):
         raise common.NoVerdict("harness returned %d/%d" % (len(res), len(cases)))
@@ -127,9 +136,9 @@ def run(ctx):
                     "refCount = registered + reserved, live <= refCount <= max, TimeoutIsolated); the deviation 'ascoded' is refuted in the same run and its counterexample "
                     "schedules (%d) plus %d simulated behaviours of the intended design are REPLAYED through the H5 gates (cmd.Start and the three channel sends held and released "
                     "in schedule order) into the real master with real worker processes; %d free-running randomized load runs (bursts, hung requests, crashing workers, and a late round of short requests after a quiet period longer than --timeout) over 6 "
-                    "configurations. Every run: live workers (event log and /proc, sampled every 4 ms) <= max; >= init alive after the quiet period; every normal request "
+                    "configurations, and %d storm runs (all live workers killed at the same moment, twice, while every bookkeeping step of the master is slowed down by 0-120 ms: several exit notifications arrive while the master is busy). Double faults and the liveness property Refill are model-checked (i_2_3_f2); the deviation 'lostexit' (exit notification dropped when the master is busy) is refuted by TLC. Every run: live workers (event log and /proc, sampled every 4 ms) <= max; >= init alive after the quiet period; every normal request "
                     "answered exactly once with its own token; and the complete H5 event log is validated by TLC against Trace_ZnPrefork (action, refCount, table size, "
-                    "spawn-loop size bound at every event; %d log lines)" % (len([s for s in scheds if s[0].startswith("cex")]), len(scheds) - len([s for s in scheds if s[0].startswith("cex")]), nfree, nlines),
+                    "spawn-loop size bound at every event; %d log lines)" % (len([s for s in scheds if s[0].startswith("cex")]), len(scheds) - len([s for s in scheds if s[0].startswith("cex")]), nfree, nstorm, nlines),
                schedules_followed_to_the_end=followed, responses_checked=nresp, trace_lines=nlines)
     return cov, ["worker-internal steps (accept, finish, pipe writes) are not logged; the trace spec takes the state report from the log",
                  "batch is the code's constant 10; configurations with max <= 4", "pids are renumbered in start order (spec pids are symmetric)"]
